@@ -57,6 +57,10 @@ def _mk(container, msg):
         return list(msg)
     if container == "tuple":
         return tuple(msg)
+    if container == "memoryview-slice":
+        # a zero-copy frame inside a larger receive buffer
+        pad = bytes([0xA5, 0x5A, 0xFF])
+        return memoryview(pad + bytes(msg) + pad)[3:3 + len(msg)]
     return memoryview(bytes(msg))
 
 
@@ -260,7 +264,7 @@ def run_shard(spec):
             if i == 0:
                 acc.samples.append({"mode": "fold", "len": n, "crc7": crc7(msg)})
     elif mode == "random":
-        conts = ["bytes", "bytearray", "list", "tuple", "memoryview"]
+        conts = ["bytes", "bytearray", "list", "tuple", "memoryview", "memoryview-slice"]
         for i in range(spec["n"]):
             r = rng.random()
             if r < 0.3:
